@@ -23,10 +23,10 @@ Definition diff_rows (a b : list (list F)) : list (list F) :=
 Definition dyn_term := mse_term.
 Definition ic_term (w : weight) (u0 ut0 : list (list F)) : F := mse_term w (diff_rows u0 ut0).
 Definition obs_term (w : weight) (pred vals : list (list F)) : F := mse_term w (diff_rows pred vals).
-(* ODE initial condition as the source writes it: mean(w * sum((u(t0) - u0) ** 2)) *)
-Definition ode_ic_term (w : weight) (ut0 u0 : list F) : F :=
-  let s := sumK (map (fun q => sq (fst q - snd q)) (combine ut0 u0)) in
-  match w with WScalar x => x * s | WVec l => meanK (map (fun x => x * s) l) end.
+(* ODE initial condition: u(t0; params) - u0, one row per parameter sample (one row without a
+   parameter batch) *)
+Definition ode_ic_term (w : weight) (ut0 : list (list F)) (u0 : list F) : F :=
+  mse_term w (map (fun r => map (fun q => fst q - snd q) (combine r u0)) ut0).
 (* normalisation: w * (L * mean over samples (and components) of u - 1)^2, averaged over the
    batch times when u depends on time; vals = one matrix (samples x components) per time *)
 Definition mean_all (m : list (list F)) : F := meanK (concat m).
